@@ -73,7 +73,7 @@ CastNameShapes == <<
   \* same, never qualified with the struct package
   CastBuiltin >>
 
-GenMapShapes == TypeTableShapes \o NamingShapes \o CastNameShapes \o AllSessionShapes
+GenMapShapes == TypeTableShapes \o <<Dotted(TypeTableShapes[1]), Dotted(TypeTableShapes[3])>> \o NamingShapes \o CastNameShapes \o AllSessionShapes
 
 ---------------------------------------------------------------------------
 \* C10: flags, validators, plan modifiers, comments, injected fields, placeholder
@@ -491,7 +491,7 @@ SepSel == <<ScalarShapes[8], ScalarShapes[6], ScalarShapes[10], ScalarShapes[13]
             Shape("s.allbytes", Desc(<<Msg("Root", <<Fld("Raw", 1, "bytes"), Rep(Fld("Items", 2, "bytes")), MapOf(Fld("Tags", 3, "bytes")),
                                                      Rep(Fld("Fa", 4, "bool")), MapOf(Fld("Fb", 5, "uint32"))>>, <<>>)>>), BaseCfg),
             \* the word "package" inside a description: only the package clause of the file may be rewritten
-            CastBuiltin,
+            CastBuiltin, Dotted(DeepShapes[1]), Dotted(ObjShapes[1]),
             \* duration_custom_type names a cast type by its bare name, wherever the generated code lives
             CastNameShapes[1],
             Shape("s.pkgcomment", Desc(<<Msg("Root", <<Commented(Fld("Str", 1, "string"), ComPkg), Commented(Fld("Num", 2, "int32"), Com1)>>, <<>>)>>), BaseCfg)>>
